@@ -80,7 +80,7 @@ var poolExprs = []string{
 	`""`, `"a"`, `"abc"`, `"length"`, `"0"`, `"-0"`, `"1e3"`, `"\ud800"`, `"é😀"`, `"constructor"`, `"__proto__"`, `"gimsuy"`, `"(?:"`, `","`,
 	`1n`, `-1n`, `0n`, `18446744073709551616n`,
 	`Symbol()`, `Symbol.iterator`, `Symbol.species`, `Symbol.toPrimitive`,
-	`{}`, `[]`, `[1,2,3]`, `[,1,,2]`, `[[1,2],[3,4]]`, `Object.create(null)`, `Object.freeze([1,2])`, `Object.freeze({a:1})`, `{length: 3, 0: "a", 2: "c"}`, `{length: -1}`, `{length: 4294967297, 0: 1}`, `{length: "2", 0: 1, 1: 2}`,
+	`{}`, `[]`, `[1,2,3]`, `[,1,,2]`, `[[1,2],[3,4]]`, `Object.create(null)`, `Object.freeze([1,2])`, `Object.freeze({a:1})`, `{length: 3, 0: "a", 2: "c"}`, `{length: -1}`, `{length: 70000, 0: 1}`, `{length: "2", 0: 1, 1: 2}`,
 	`function(){ return 1 }`, `function(){ throw new Error("cb") }`, `(a, b) => b - a`, `function*(){ yield 1; yield 2 }`, `async function(){}`, `class K { constructor(){ this.x = 1 } static [Symbol.species](){ } }`, `Math.max`, `Array`, `Object`, `Proxy`, `Function.prototype`,
 	`new Proxy({}, {})`, `new Proxy([1,2], {})`, `new Proxy(function(){}, {})`, `new Proxy({}, {get(){ throw new Error("trap") }, has(){ return true }, ownKeys(){ return ["a","a"] }})`, `(function(){ var r = Proxy.revocable({}, {}); r.revoke(); return r.proxy })()`,
 	`{valueOf(){ return 1 }}`, `{valueOf(){ throw new Error("vo") }}`, `{toString(){ return {} }, valueOf(){ return {} }}`, `{[Symbol.toPrimitive](){ return Symbol() }}`, `{valueOf(){ A.length = 0; return 1 }}`, `{valueOf(){ detach(B); return 0 }}`, `{toString(){ detach(B); return "1" }}`, `{get length(){ detach(B); return 2 }}`,
